@@ -187,6 +187,12 @@ StateChecks(o) ==
 Drift(o) ==
   LET e == o.e IN
   IF e.a = "Set" /\ loc["c1"] # <<>> /\ loc["c1"].res # e.res THEN {<<sid, e.n, "set-reply">>}
+  ELSE IF e.a = "Set" /\ e.wrote /\ e.c >= 0 /\ ~Colliding(e.k) /\ loc["c1"] # <<>> /\ (loc["c1"].c # e.c \/ loc["c1"].off # e.off)
+    THEN {<<sid, e.n, "set-pos">>}      \* the record went to another (chunk, offset) than the specification computed
+  ELSE IF e.a = "ReadAll" /\ pc["gc"] = "idle" /\ up
+    THEN {<<sid, e.n, "tree-pos">> : k \in {k \in DOMAIN e.reads : k \in Keys /\ ~Colliding(k) /\ e.reads[k].res = "hit" /\
+              (OldMeta(k).c # e.reads[k].c \/ OldMeta(k).off # e.reads[k].off)}}
+  ELSE IF e.a = "Open" /\ up /\ head # e.head THEN {<<sid, e.n, "open-head">>}
   ELSE IF e.a = "Get" /\ loc["c1"] # <<>> /\ loc["c1"].res # e.res THEN {<<sid, e.n, "get-reply">>}
   ELSE IF e.a = "Get" /\ e.res = "hit" /\ (loc["c1"].c # e.c \/ loc["c1"].off # e.off) THEN {<<sid, e.n, "get-pos">>}
   ELSE {}
